@@ -5,7 +5,7 @@ decided."""
 import ast
 import re
 
-from ..core import (AnalysisError, assigned_targets, body_nodes, call_name, dotted, enclosing_stmt, is_self_attr, key_text, names_in,
+from ..core import (AnalysisError, local_defs, assigned_targets, body_nodes, call_name, dotted, enclosing_stmt, is_self_attr, key_text, names_in,
                     params, parent, stmts_of, unparse)
 from ..dtable import run_paths
 from ..flow import possibly_undefined, reaching_defs
@@ -91,65 +91,125 @@ def _parity_defect(f):
         unparse(iv)[:40], it)
 
 
+def _registry_effects(f):
+    """effects of a Site method on the operator registries, as (kind, key, value, stmt) with
+    expression texts taken from the given (normal-form) function"""
+    out = []
+    for st in ast.walk(f):
+        if not isinstance(st, ast.stmt):
+            continue
+        if isinstance(st, ast.Expr) and isinstance(st.value, ast.Call):
+            c = st.value
+            d = dotted(c.func) or ''
+            a = [unparse(x) for x in c.args]
+            if d == 'setattr' and len(a) == 3 and a[0] == 'self':
+                out.append(('attr+', a[1], a[2], st))
+            elif d == 'delattr' and len(a) == 2 and a[0] == 'self':
+                out.append(('attr-', a[1], None, st))
+            elif d == 'self.opnames.add' and a:
+                out.append(('opnames+', a[0], None, st))
+            elif d in ('self.opnames.remove', 'self.opnames.discard') and a:
+                out.append(('opnames-', a[0], None, st))
+            elif d == 'self.need_JW_string.add' and a:
+                out.append(('jw+', a[0], None, st))
+            elif d in ('self.need_JW_string.discard', 'self.need_JW_string.remove') and a:
+                out.append(('jw-', a[0], None, st))
+            elif d == 'self.hc_ops.pop' and a:
+                out.append(('hc-', a[0], None, st))
+            elif d.startswith('self.') and d.count('.') == 1:
+                out.append(('call', d[5:], ', '.join(a), st))
+        elif isinstance(st, ast.Assign):
+            for t in st.targets:
+                if isinstance(t, ast.Subscript) and unparse(t.value) == 'self.hc_ops':
+                    out.append(('hc+', unparse(t.slice), unparse(st.value), st))
+                if is_self_attr(t, 'JW_exponent'):
+                    out.append(('jwexp', None, unparse(st.value), st))
+        elif isinstance(st, ast.Delete):
+            for t in st.targets:
+                if isinstance(t, ast.Subscript) and unparse(t.value) == 'self.hc_ops':
+                    out.append(('hc-', unparse(t.slice), None, st))
+    return out
+
+
+def _guards(f, st):
+    return {(t, pol) for t, pol, _ in guards_of(f, st)}
+
+
 def check_site_registry(prog, rep):
     m = prog.module(SITE)
     rep.unit(m)
-    f = m.func('Site.add_op')
-    src = unparse(f)
-    checks = [
-        ('attribute', 'setattr(self, name, op)' in src),
-        ('opnames', 'self.opnames.add(name)' in src),
-        ('need_JW_string', any(isinstance(s, ast.If) and unparse(s.test) == 'need_JW' and
-                               'self.need_JW_string.add(name)' in unparse(s)
-                               for s in ast.walk(f))),
-        ('hc_ops both directions', 'self.hc_ops[hc] = name' in src and
-         'self.hc_ops[name] = hc' in src),
-        ('JW_exponent', any(isinstance(s, ast.If) and "name == 'JW'" in unparse(s.test) and
-                            'self.JW_exponent' in unparse(s) for s in ast.walk(f))),
-    ]
-    for what, ok in checks:
-        rep.instance('SITE-registry', {'function': 'Site.add_op', 'registry': what})
-        if not ok:
-            rep.violation('SITE-registry', m, 'Site.add_op', 'add:' + what,
-                          'add_op must keep the operator registries in step; missing update of: %s'
-                          % what, f.lineno)
-    f = m.func('Site.remove_op')
-    src = unparse(f)
-    checks = [
-        ('attribute', 'delattr(self, name)' in src),
-        ('opnames', 'self.opnames.remove(name)' in src or 'self.opnames.discard(name)' in src),
-        ('need_JW_string', 'self.need_JW_string.discard(name)' in src or
-         'self.need_JW_string.remove(name)' in src),
-        ('hc_ops both directions', 'del self.hc_ops[name]' in src and
-         'del self.hc_ops[hc_name]' in src),
-    ]
-    for what, ok in checks:
-        rep.instance('SITE-registry', {'function': 'Site.remove_op', 'registry': what})
-        if not ok:
-            rep.violation('SITE-registry', m, 'Site.remove_op', 'remove:' + what,
-                          'remove_op leaves a stale entry in: %s (e.g. a later operator of the '
-                          'same name inherits the Jordan-Wigner flag / hc partner)' % what,
-                          f.lineno)
-    f = m.func('Site.rename_op')
-    src = unparse(f)
-    checks = [
-        ('removes old', 'self.remove_op(old_name)' in src),
-        ('attribute', 'setattr(self, new_name, op)' in src),
-        ('opnames', 'self.opnames.add(new_name)' in src),
-        ('need_JW_string', 'need_JW = old_name in self.need_JW_string' in src and
-         'self.need_JW_string.add(new_name)' in src),
-        ('hc_ops both directions', 'self.hc_ops[new_name] = old_hc_name' in src and
-         'self.hc_ops[old_hc_name] = new_name' in src and
-         'self.hc_ops[new_name] = new_name' in src),
-        ('JW_exponent', any(isinstance(s, ast.If) and "new_name == 'JW'" in unparse(s.test) and
-                            'self.JW_exponent' in unparse(s) for s in ast.walk(f))),
-    ]
-    for what, ok in checks:
-        rep.instance('SITE-registry', {'function': 'Site.rename_op', 'registry': what})
-        if not ok:
-            rep.violation('SITE-registry', m, 'Site.rename_op', 'rename:' + what,
-                          'rename_op must carry over: %s' % what, f.lineno)
+
+    def report(fn, prefix, checks, text, f):
+        for what, ok in checks:
+            rep.instance('SITE-registry', {'function': fn, 'registry': what})
+            if not ok:
+                rep.violation('SITE-registry', m, fn, prefix + what, text % what, f.lineno)
+
+    # ---- add_op(name, op, need_JW, hc)
+    f = inline_temps(m.func('Site.add_op'), keep=('hc', ))
+    pm = params(f)
+    nm, opn, jw, hc = pm[1], pm[2], pm[3], pm[4]
+    ef = _registry_effects(f)
+    hcp = {(k, v) for kind, k, v, _ in ef if kind == 'hc+'}
+    report('Site.add_op', 'add:', [
+        ('attribute', any(kind == 'attr+' and k == nm for kind, k, v, _ in ef)),
+        ('opnames', any(kind == 'opnames+' and k == nm for kind, k, v, _ in ef)),
+        ('need_JW_string', any(kind == 'jw+' and k == nm and (jw, True) in _guards(f, st)
+                               for kind, k, v, st in ef)),
+        ('hc_ops both directions', (hc, nm) in hcp and (nm, hc) in hcp),
+        ('JW_exponent', any(kind == 'jwexp' and ("%s == 'JW'" % nm, True) in _guards(f, st)
+                            for kind, k, v, st in ef)),
+    ], 'add_op must keep the operator registries in step; missing update of: %s', f)
+    # ---- remove_op(name)
+    f = inline_temps(m.func('Site.remove_op'))
+    nm = params(f)[1]
+    ef = _registry_effects(f)
+    hcdel = [k for kind, k, v, _ in ef if kind == 'hc-']
+    defs = local_defs(f)
+
+    def is_partner(k):
+        txts = [k] + [unparse(v) for v in defs.get(k, [])]
+        return any('self.hc_ops' in t and nm in t for t in txts)
+
+    report('Site.remove_op', 'remove:', [
+        ('attribute', any(kind == 'attr-' and k == nm for kind, k, v, _ in ef)),
+        ('opnames', any(kind == 'opnames-' and k == nm for kind, k, v, _ in ef)),
+        ('need_JW_string', any(kind == 'jw-' and k == nm for kind, k, v, _ in ef)),
+        ('hc_ops both directions', nm in hcdel and any(is_partner(k) for k in hcdel if k != nm)),
+    ], 'remove_op leaves a stale entry in: %s (e.g. a later operator of the same name inherits '
+       'the Jordan-Wigner flag / hc partner)', f)
+    # ---- rename_op(old_name, new_name)
+    f0 = m.func('Site.rename_op')
+    f = inline_temps(f0)
+    old, new = params(f)[1], params(f)[2]
+    ef = _registry_effects(f)
+    defs = local_defs(f)
+    hcp = {(k, v) for kind, k, v, _ in ef if kind == 'hc+'}
+
+    def reads_old(txt, what):
+        txts = [txt] + [unparse(v) for v in defs.get(txt, [])]
+        return any(what in t and old in t for t in txts)
+
+    jw_ok = False
+    for kind, k, v, st in ef:
+        if kind == 'jw+' and k == new:
+            for t, pol in _guards(f, st):
+                if pol and reads_old(t, 'self.need_JW_string'):
+                    jw_ok = True
+    partner = [v for (k, v) in hcp if k == new and v != new and reads_old(v, 'self.hc_ops')]
+    report('Site.rename_op', 'rename:', [
+        ('removes old', any(kind == 'call' and k == 'remove_op' and v == old
+                            for kind, k, v, _ in ef)),
+        ('attribute', any(kind == 'attr+' and k == new for kind, k, v, _ in ef)),
+        ('opnames', any(kind == 'opnames+' and k == new for kind, k, v, _ in ef)),
+        ('need_JW_string', jw_ok),
+        ('hc_ops both directions', bool(partner) and (partner[0], new) in hcp and
+         (new, new) in hcp),
+        ('JW_exponent', any(kind == 'jwexp' and ("%s == 'JW'" % new, True) in _guards(f, st)
+                            for kind, k, v, st in ef)),
+    ], 'rename_op must carry over: %s', f)
     # the state needed for need_JW must be read BEFORE remove_op drops it
+    f = f0
     for s in stmts_of(f):
         if isinstance(s, ast.Assign) and 'in self.need_JW_string' in unparse(s.value):
             rm = [x for x in stmts_of(f) if 'self.remove_op(' in unparse(x)]
